@@ -85,6 +85,10 @@ def compare(exp, o, check_first=True, pattern=False):
     if lj.get("ext_eq_src") is False:
         # whatever extensions the library reports for the source of a copy (also one without elements), the copy reports the same
         bad.append(("copy_extensions_differ_from_source", True, False))
+    if lj.get("swap_exchanged_extensions") is False:
+        bad.append(("swap_did_not_exchange_extensions", True, False))
+    if lj.get("ext_as_requested") is False:
+        bad.append(("reextent_extensions_differ_from_requested", True, False))
     if lj.get("same_extents") and lj.get("same_data") is not True:
         bad.append(("reextent_same_extents_moved_storage", True, lj.get("same_data")))
     return bad
